@@ -18,6 +18,10 @@ class Expansion:
         self.by = {}
         for f in self.fns:
             self.by.setdefault((self._container(f.modpath, f.impl, f.outer), f.name), []).append(f)
+        self.impl_types = {}
+        for o in self.others:
+            if o.kind == 'type' and o.impl is not None:
+                self.impl_types.setdefault(o.impl, []).append(' '.join(o.tokens))
         self.structs = {}
         for o in self.others:
             if o.kind in ('struct', 'enum'):
@@ -105,7 +109,7 @@ class Overlay:
 
 class Item:
     """one generated item"""
-    __slots__ = ('entry', 'key', 'kind', 'container', 'impl_header', 'modpath', 'full', 'stub', 'ratio', 'identical', 'log', 'name', 'ghost_counts', 'code_tokens', 'canary_full', 'n_canaries', 'header_tokens', 'variant', 'assumed')
+    __slots__ = ('entry', 'key', 'kind', 'container', 'impl_header', 'modpath', 'full', 'stub', 'ratio', 'identical', 'log', 'name', 'ghost_counts', 'code_tokens', 'canary_full', 'n_canaries', 'header_tokens', 'variant', 'assumed', 'out_tokens', 'body_index', 'is_mp')
 
 
 def _proof_fn_stub(text):
@@ -226,6 +230,9 @@ class Generator:
             it.canary_full = None
             it.header_tokens = None
             it.variant = e.opts.get('variant')
+            it.out_tokens = None
+            it.body_index = None
+            it.is_mp = False
             it.assumed = 'assumed' in e.opts
             if e.kind in ('raw', 'spec'):
                 it.full = text
@@ -251,6 +258,15 @@ class Generator:
             else:
                 raise ValueError(e.kind)
             items.append(it)
+        mp_names = {it.key.split('::')[-1] for it in items if it.kind == 'fn' and 'mp' in it.entry.opts}
+        extra = []
+        for it in items:
+            if it.kind == 'fn' and 'mp' in it.entry.opts and it.out_tokens is not None:
+                try:
+                    extra.append(self._derive_mp(it, mp_names))
+                except Exception as ex:
+                    self.problems.append(('unsupported', it.key + '__mp', str(ex)))
+        items += extra
         proven_keys = {(it.kind, it.key) for it in items if it.kind in ('fn', 'const') and not it.assumed}
         items = [it for it in items if not (it.assumed and (it.kind, it.key) in proven_keys)]
         self.items = items
@@ -268,6 +284,10 @@ class Generator:
             if not f.has_body:
                 raise LostAnchor(f'fn {it.key} has no body')
             sig, body, impl, modpath = list(f.sig), list(f.body), f.impl, f.modpath
+            if f.outer and f.impl is None:
+                # R7: a free fn hoisted out of a method body is called unqualified from that method,
+                # so it must live where the impl blocks are emitted (crate root), not in the source module
+                modpath = ()
         elif e.kind == 'struct':
             l = self.x.structs.get(it.key.replace(' ', ''), [])
             if len(l) != 1:
@@ -291,12 +311,15 @@ class Generator:
             sig = fn(sig, *a)
             body = fn(body, *a)
         both(R.r1_attrs, log)
+        sig = R.r16_pub_super(sig, log)
         both(R.r2_panics, log)
         both(R.r3_const_uses, self.x.const_names, self_is_bnum, log)
         both(R.r6_int_ident, log)
         both(R.r11_for_underscore, log)
         if 'r12' in e.opts:
             both(R.r12_bool_or_assign, set(e.opts['r12'].split(',')), log)
+        if 'r14' in e.opts:
+            both(R.r14_digit_from_bytes, log)
         if 'rename' in e.opts:
             mp = dict(kv.split(':') for kv in e.opts['rename'].split(','))
             both(R.rename_idents, mp, log)
@@ -327,7 +350,8 @@ class Generator:
         b = cmap[len(sig)]
         header = out[:b]
         it.header_tokens = header
-        # drop leading visibility differences? keep as is.
+        it.out_tokens = out
+        it.body_index = b
         it.full = join(out)
         # canary variant: `assert(false)` at the top of the body and at the top of every loop body
         # that carries an invariant; each must be reported as failing (vacuity guard, DESIGN 3.8)
@@ -357,14 +381,17 @@ class Generator:
                     cpos.append(i)
                     inv_pending = False
             i += 1
-        # each canary is guarded by its own unconstrained boolean so that canaries sharing one SMT query
-        # (functions verified with #[verifier::loop_isolation(false)]) fire independently of each other
+        # each canary is guarded by a distinct uninterpreted boolean so that a canary that fired does not
+        # mask the later ones of the same query (Verus assumes a failed assertion afterwards; this matters
+        # for functions marked #[verifier::loop_isolation(false)], whose loop bodies share the query)
         co = []
         cset = set(cpos)
+        nc = 0
         for i, t in enumerate(out):
             co.append(t)
             if i in cset:
-                co += lex('proof { if (vstd::pervasive::arbitrary::<spec_fn(int) -> bool>())(%d) { assert(false); } }' % len(co))
+                co += ['proof', '{', 'if', 'bn_canary__', '(', str(nc), ')', '{', 'assert', '(', 'false', ')', ';', '}', '}']
+                nc += 1
         it.canary_full = join(co)
         it.n_canaries = len(cpos)
         if it.kind == 'const' and impl is None:
@@ -377,6 +404,99 @@ class Generator:
         for _, g in ghosts:
             gt += g
         it.ghost_counts = count_ghost(gt)
+
+    def _derive_mp(self, it, mp_names):
+        """must-panic dual (DESIGN 3.4): same body, `panic!` -> bn_diverge(), calls to other
+        panicking functions -> their duals, and every `requires bn_nopanic(P)` becomes `ensures P`:
+        the dual returns only if P held, i.e. not P implies the original panics."""
+        out = list(it.out_tokens)
+        b = it.body_index
+        header, body = out[:b], out[b:]
+        fi = header.index('fn')
+        name = header[fi + 1]
+        header[fi + 1] = name + '__mp'
+        sig, clauses = split_header(header)
+        req, ens, other = [], [], []
+        for kw, toks in clauses:
+            if kw in ('requires', 'ensures'):
+                # split at depth-0 commas
+                parts = []
+                d = 0
+                cur = []
+                for t in toks:
+                    if t in '([{':
+                        d += 1
+                    elif t in ')]}':
+                        d -= 1
+                    if t == ',' and d == 0:
+                        if cur:
+                            parts.append(cur)
+                        cur = []
+                    else:
+                        cur.append(t)
+                if cur:
+                    parts.append(cur)
+                for p_ in parts:
+                    if kw == 'requires' and p_ and p_[0] == 'bn_nopanic':
+                        ens.insert(0, p_)
+                    elif kw == 'requires':
+                        req.append(p_)
+                    else:
+                        ens.append(p_)
+            else:
+                other.append((kw, toks))
+        h2 = list(sig)
+        if req:
+            h2.append('requires')
+            for p_ in req:
+                h2 += p_ + [',']
+        if ens:
+            h2.append('ensures')
+            for p_ in ens:
+                h2 += p_ + [',']
+        for kw, toks in other:
+            h2 += [kw] + list(toks)
+        b2 = []
+        i = 0
+        n = len(body)
+        while i < n:
+            t = body[i]
+            if t == 'panic' and i + 2 < n and body[i + 1] == '!' and body[i + 2] == '(':
+                k = match_close(body, i + 2)
+                b2 += ['bn_diverge', '(', ')']
+                i = k + 1
+                continue
+            if t in mp_names and i + 1 < n and body[i + 1] == '(' and i > 0 and body[i - 1] in ('.', '::'):
+                b2.append(t + '__mp')
+                i += 1
+                continue
+            b2.append(t)
+            i += 1
+        m = Item()
+        m.entry = it.entry
+        m.kind = 'fn'
+        m.key = it.key + '__mp'
+        m.name = m.key
+        m.log = dict(it.log)
+        m.log['MP'] = 1
+        m.ratio = it.ratio
+        m.identical = it.identical
+        m.ghost_counts = it.ghost_counts
+        m.code_tokens = it.code_tokens
+        m.impl_header = it.impl_header
+        m.modpath = it.modpath
+        m.container = None
+        m.header_tokens = h2
+        m.out_tokens = None
+        m.body_index = None
+        m.variant = None
+        m.assumed = it.assumed
+        m.is_mp = True
+        m.full = join(h2 + b2)
+        m.canary_full = m.full
+        m.n_canaries = 0
+        m.stub = '#[verifier::external_body]\n' + join(h2) + '{ unimplemented!() }\n'
+        return m
 
     def render(self, unit, canary=False):
         """-> (text, linemap [(first_line, last_line, item)])"""
@@ -424,7 +544,8 @@ class Generator:
                             if g is not owned[0]:
                                 skip.add(id(g))
                     else:
-                        merged_stub[id(grp[0])] = merge_stub_headers([g.header_tokens for g in grp])
+                        if not (grp[0].kind == 'const' and grp[0].impl_header is None):
+                            merged_stub[id(grp[0])] = merge_stub_headers([g.header_tokens for g in grp])
                         for g in grp[1:]:
                             skip.add(id(g))
             for it in its:
@@ -441,6 +562,9 @@ class Generator:
                         body = merged_stub[id(it)]
                     if it.impl_header is not None:
                         emit(it.impl_header + ' {')
+                        if ' for ' in it.impl_header and not it.is_mp:
+                            for ty in self.x.impl_types.get(it.impl_header, []):
+                                emit(ty)
                         emit(body, it if own else None)
                         emit('}')
                     else:
@@ -458,8 +582,13 @@ class Generator:
                 emit('}')
 
         emit('#![allow(unused_imports, unused_variables, unused_mut, dead_code, non_snake_case, unused_parens, unused_braces, unused_assignments, non_upper_case_globals, unreachable_code)]')
+        # `vec![..]` expands (rustc -Zunpretty=expanded) to liballoc-internal calls `::alloc::boxed::box_assume_init_into_vec_unsafe(..)`
+        emit('#![feature(liballoc_internals)]')
+        emit('extern crate alloc;')
         emit('use vstd::prelude::*;')
         emit('verus! {')
+        if canary:
+            emit('pub uninterp spec fn bn_canary__(k: int) -> bool;')
         emit_node(tree, 0)
         emit('} // verus!')
         emit('fn main() {}')
